@@ -488,6 +488,12 @@ func c16CheckSetString(r *rt.Result, l *c16Local, cs c16Case) {
 		}
 	case c16Unspecified:
 		switch {
+		case err != nil && (cl.shape == "plus-sign" || cl.shape == "surrounding-spaces") && c16DecorationAccepted(cl.shape) && c16Classify(p, s, c16Undecorated(cs.Text)).verdict == c16MustAccept:
+			// a library may refuse plus signs / surrounding spaces, but not
+			// depending on the number: this one accepts them (probed with
+			// "+1.5" / " 1.5 " at (38,19)), and the same numeral without the
+			// decoration is within the limits
+			r.Violate("setstring/"+cl.shape+"/rejected-although-the-decoration-is-accepted-elsewhere", fmt.Sprintf("%s: error %v; the library accepts this decoration for other numbers, and %q is within the limits (unscaled %s)", where, err, c16Undecorated(cs.Text), cl.u), cs)
 		case err != nil:
 			l.ctr["unspecified_rejected/"+cl.name]++
 		case got.Cmp(cl.u) == 0:
@@ -951,6 +957,7 @@ func runC16(c *Ctx) {
 	r.Assumptions = []string{
 		"a value is set without the text path via SetBytes(|u|) and Negate(); Int() returns the unscaled integer",
 		"not judged (counted): acceptance of representable values in over-long or lenient spellings (trailing zeros beyond the scale, leading zeros beyond precision-scale digits, '+', surrounding white space, missing integer or fraction part) — accepted exactly or rejected are both fine, a changed value is not; NewDecimal(0,0); whether the receiver is untouched after an error",
+		"a plus sign or surrounding white space may be refused, but not depending on the number: the library is probed once with '+1.5' and ' 1.5 ' at (38,19); if it accepts the decoration there, refusing it on a numeral that is within the limits without the decoration is a violation",
 		"'N.0' is within the limits at scale 0 and '0.F' at scale == precision, because String() itself must print them and parse-back must accept them",
 	}
 	if c.Replay != nil {
@@ -1180,4 +1187,27 @@ func runC16ParseRace(c *Ctx) {
 	done.Wait()
 	r.Count("parse_race_goroutines", workers)
 	r.Count("parse_race_precision_scale_pairs", int64(n))
+}
+
+// c16Undecorated removes surrounding white space and a leading plus sign.
+func c16Undecorated(text string) string {
+	return strings.TrimPrefix(strings.TrimFunc(text, unicode.IsSpace), "+")
+}
+
+var (
+	c16DecoOnce sync.Once
+	c16DecoOK   = map[string]bool{}
+)
+
+// c16DecorationAccepted: does the library accept the decoration at all?
+func c16DecorationAccepted(shape string) bool {
+	c16DecoOnce.Do(func() {
+		for sh, text := range map[string]string{"plus-sign": "+1.5", "surrounding-spaces": " 1.5 "} {
+			var err error
+			if rt.Catch(func() { _, err = asetypes.NewDecimalString(38, 19, text) }) == nil && err == nil {
+				c16DecoOK[sh] = true
+			}
+		}
+	})
+	return c16DecoOK[shape]
 }
